@@ -370,7 +370,10 @@ fn map_op<const N: usize>(m: &mut Map<Key, Val, N>, op: &[u64], o: &mut Out) {
                 o.push(d.len() as u64);
                 fmt_into(format_args!("{:?}", d), o);
                 fmt_into(format_args!("{:#?}", d), o);
-                if fate == 0 { counted(|| drop(d)); } else { leak_ok(); mem::forget(d); } }
+                if fate == 0 { counted(|| drop(d)); }
+                else if fate == 2 { let mut cnt = 0u64;
+                    counted(|| d.for_each(|p| { call_tick(); cnt += 1; caller_drop(p); })); o.push(cnt); }
+                else { leak_ok(); mem::forget(d); } }
         35 => { #[allow(deprecated)]
                 let fresh = Map::<Key, Val, N>::with_capacity(op[2] as usize);
                 let old = mem::replace(m, fresh); drop(old); }
@@ -473,7 +476,10 @@ fn into_session<const N: usize>(m: &mut Map<Key, Val, N>, kind: u64, take: u64, 
     macro_rules! finish { ($it:ident) => {{
         fmt_into(format_args!("{:?}", $it), o); fmt_into(format_args!("{:#?}", $it), o);
         o.push($it.len() as u64);
-        if fate == 0 { counted(|| drop($it)); } else { leak_ok(); mem::forget($it); }
+        if fate == 0 { counted(|| drop($it)); }
+        else if fate == 2 { let mut cnt = 0u64;
+            counted(|| $it.for_each(|p| { call_tick(); cnt += 1; caller_drop(p); })); o.push(cnt); }
+        else { leak_ok(); mem::forget($it); }
     }}; }
     match kind {
         0 => { let mut it = counted(|| old.into_iter());
@@ -578,7 +584,10 @@ fn set_op<const N: usize>(s: &mut Set<Key, N>, op: &[u64], o: &mut Out) {
                      let it = counted(|| d.next()); o.push(l);
                      match it { Some(k) => { o.push(1); r_key(&k, o); caller_drop(k); } None => o.push(0) } }
                  o.push(d.len() as u64);
-                 if fate == 0 { counted(|| drop(d)); } else { leak_ok(); mem::forget(d); } }
+                 if fate == 0 { counted(|| drop(d)); }
+                 else if fate == 2 { let mut cnt = 0u64;
+                     counted(|| d.for_each(|p| { call_tick(); cnt += 1; caller_drop(p); })); o.push(cnt); }
+                 else { leak_ok(); mem::forget(d); } }
         135 => { let n = op[2] as usize;
                  let items: Vec<Key> = (0..n).map(|i| Key::new(op[3 + 2 * i], op[4 + 2 * i])).collect();
                  let src = Src { it: items.into_iter() };
@@ -599,7 +608,10 @@ fn set_op<const N: usize>(s: &mut Set<Key, N>, op: &[u64], o: &mut Out) {
                      o.push(l as u64);
                      match counted(|| it.next()) { None => o.push(0), Some(k) => { o.push(1); r_key(&k, o); caller_drop(k); } } }
                  o.push(it.len() as u64);
-                 if fate == 0 { counted(|| drop(it)); } else { leak_ok(); mem::forget(it); } }
+                 if fate == 0 { counted(|| drop(it)); }
+                 else if fate == 2 { let mut cnt = 0u64;
+                     counted(|| it.for_each(|p| { call_tick(); cnt += 1; caller_drop(p); })); o.push(cnt); }
+                 else { leak_ok(); mem::forget(it); } }
         162 => { let arr = op[2] == 1; let n = op[3] as usize;
                  let items: Vec<Key> = (0..n).map(|i| Key::new(op[4 + 2 * i], op[5 + 2 * i])).collect();
                  let fresh: Set<Key, N> = if arr {
@@ -781,7 +793,7 @@ fn step(w: &mut World, op: &[u64]) -> (Out, bool) {
     let panicked = res.is_err();
     match res {
         Ok(()) => { out.push(1); out.extend(body); post(w, t, &mut out); events(&mut out); }
-        Err(_) => { with_ctx(|c| c.leak_ok = true); out.push(2); post(w, t, &mut out); out.extend([8888, 8889]); }
+        Err(_) => { out.push(2); post(w, t, &mut out); out.extend([8888, 8889]); }
     }
     for (i, r) in w.m.iter().enumerate() { if !r.intact() { fault(format!("CANARY memory next to map register {} was overwritten", i)); } }
     for (i, r) in w.s.iter().enumerate() { if !r.intact() { fault(format!("CANARY memory next to set register {} was overwritten", i)); } }
